@@ -212,3 +212,29 @@ func vh_C12_nil() {
 	vAssert(vSexpEq(v, back), "nil-reads-back")
 	vReach("nil")
 }
+
+// vh_C12_escapes: several escaped characters in one text (the reader's
+// escape state must not leak from one escape to the next).
+func vh_C12_escapes() {
+	env := vEnvs(1)[0]
+	r := rune(vInt32("r"))
+	vAssume(vValidRune(r) && r < 0x250)
+	var v Sexp
+	switch vChoice("shape", 4) {
+	case 0:
+		v = &SexpStr{S: "\x01" + string(r)}
+	case 1:
+		v = &SexpStr{S: string(r) + "\u00ad" + "\x7f"}
+	case 2:
+		v = MakeList([]Sexp{&SexpChar{Val: 1}, &SexpChar{Val: r}})
+	default:
+		v = &SexpArray{Val: []Sexp{&SexpStr{S: "\u00ad"}, &SexpChar{Val: r}, &SexpStr{S: string(r)}}, Env: env}
+	}
+	back, ok := vReadOne(env, v.SexpString(nil))
+	vAssert(ok, "escapes-print-is-readable")
+	if !ok {
+		return
+	}
+	vAssert(vSexpEq(v, back), "escapes-read-back")
+	vReach("escapes")
+}
